@@ -100,15 +100,22 @@ func runRecovery(ctx context.Context, cfg Config) error {
 	nodes := cfg.Cluster.Nodes()
 	sCtx := signal.Wrap(ctx, signal.WithInstrumentation(cfg.Instrumentation))
 	cfg.L.Info("recovering lost key-value operations", zap.Int("peer_node_count", len(nodes)-1))
+	// The high-water mark is what this node held when it started: it is read once, before
+	// any peer's operations are applied. Read per peer, the operations recovered from one
+	// peer raise it, and another peer then withholds operations this node still lacks.
+	hw, err := loadHighWater(ctx, cfg)
+	if err != nil {
+		return err
+	}
 	for _, n := range nodes {
 		if n.Key == cfg.Cluster.HostKey() {
 			continue
 		}
 		sCtx.Go(func(ctx context.Context) error {
-			return runSingleNodeRecovery(ctx, cfg, n)
+			return runSingleNodeRecovery(ctx, cfg, n, hw)
 		}, signal.WithKeyf("node_%v", n.Key))
 	}
-	err := sCtx.Wait()
+	err = sCtx.Wait()
 	if err != nil {
 		cfg.L.Error("recovery failed", zap.Error(err))
 	}
@@ -141,11 +148,8 @@ func runSingleNodeRecovery(
 	ctx context.Context,
 	cfg Config,
 	node node.Node,
+	hw version.Counter,
 ) error {
-	hw, err := loadHighWater(ctx, cfg)
-	if err != nil {
-		return err
-	}
 	cfg.L.Info("starting recovery for node", zap.Stringer("nodeKey", node.Key), zap.Int64("highWater", int64(hw)))
 	stream, err := cfg.RecoveryTransportClient.Stream(ctx, node.Address)
 	if err != nil {
